@@ -92,6 +92,8 @@ def system_level(ctx):
         for e in es:
             if e["ev"] in ("Expect", "AlreadyKnown", "Processed"):
                 lines.append({"a": e["ev"], "toks": rk(e["toks"]), "E": rk(e["E"]), "P": sorted(rk(e["P"]))})
+            elif e["ev"] == "Sort":
+                lines.append({"a": "Sort", "E": rk(e["E"]), "P": sorted(rk(e["P"]))})
             elif e["ev"] == "Tick":
                 r = rk(e["ret"])
                 lines.append({"a": "Tick", "ret": r[0] if r else [], "E": rk(e["E"]), "P": sorted(rk(e["P"]))})
